@@ -112,7 +112,7 @@ def resolve_callable(contract):
 def run_real(contract, fn, kwargs):
     """call the real function; -> (result, exc_name or None).  Generators are drained; on an exception the prefix
     yielded so far is the result (list semantics, as in the contract)."""
-    kw = copy.deepcopy(kwargs)
+    kw = copy.deepcopy({k: v for k, v in kwargs.items() if k not in (getattr(contract, "ghost", None) or {})})
     star = contract.star
     args = []
     if star:
